@@ -36,10 +36,10 @@ RULE = ("fn 4 setup: one logical channel is created against a peer that answers 
         "delivered, the client's writes carrying that id, connection errors seen) is the input of the predicates; in front of these, creation storms (16 goroutines released "
         "together into NewChannel, nothing else). "
         "fn 5 concurrent closers: 2..3 goroutines call Close on the SAME logical channel, in half of the cases Conn.Close is one of them (started first / last); 0..2 other logical "
-        "channels on the connection, 0 or 2 packages left in the queue; the transport holds every Write of a CLOSE-type packet for that id until ALL closers are parked in it (each has passed "
-        "the first closed check, none holds the exclusive lock), then releases them; mode 1: every closer is started once the previous one is parked in the held write (ordered through the "
-        "transport), mode 0: all are released into their calls together; GOMAXPROCS 1/4/16. Output: window reached, sorted result codes, teardown packets seen and their numbers, id unregistered, "
-        "calls on the channel report closed, the other channels still deliver, Conn.Close returns, reader ended (40 cases quick + 20 mode-1 cases under -race; thorough x10). Quick: 800 routing + 400 sending cases, 242 concurrent histories + 132 under -race; thorough: 8000 + 4000, 4840 + 1320. A seed reproduces the generator choices, not the schedule. Non-trivial = input longer than 60 characters; distinct by (fn, input).")
+        "channels on the connection, 0 or 2 packages left in the queue; the transport holds every Write of a CLOSE-type packet for that id until every closer is parked in such a write or has "
+        "returned (whoever gets as far as the teardown is in the window between the first closed check and the exclusive lock while all others run), then lets the packets go; mode 0: all closers are "
+        "released into their calls together, mode 1: one after the other; GOMAXPROCS 1/4/16. Output: closers parked in the teardown write at release, sorted result codes, teardown packets seen and their "
+        "numbers, id unregistered, calls on the channel report closed, the other channels still deliver, Conn.Close returns, reader ended (40 cases quick, all 40 again under -race; thorough x10). Quick: 800 routing + 400 sending cases, 242 concurrent histories + 132 under -race; thorough: 8000 + 4000, 4840 + 1320. A seed reproduces the generator choices, not the schedule. Non-trivial = input longer than 60 characters; distinct by (fn, input).")
 TRUSTED = ["Coq 8.16.1 kernel + vm_compute (no native_compute)",
            "hand-written models coq/theories/C12/Model.v (routing, allocation steps, multiplexed sending, setup), coq/theories/C13/Closers.v (n closers of one channel) over Rx/Model.v (receive path of one channel) and "
            "C01/Model.v + C15/Model.v (send path, packet queue), tied to the code by this correspondence and by those of C01/C02/C03/C11/C15",
@@ -53,12 +53,10 @@ ASSUMPTIONS = ["sync.RWMutex gives mutual exclusion (a thread that does not hold
                "sender state is only protected by a read lock) - several channels are used concurrently",
                "a Gallina model cannot exhibit data races or real schedules: 'without data races' is observed only - the concurrent histories (132 quick / 1320 thorough) and a tenth of the sequential families run "
                "again under the Go race detector, a DATA RACE report is a violation; not provoked: Close / Conn.Close of a channel while another goroutine sends on the SAME channel",
-               "concurrent closers of one channel: Close sends the teardown packet with NO lock held (CurrentHeaderType and curPacketNr of the channel are written by every closer). "
-               "Closers released TOGETHER (mode 0) therefore race on these two fields on the unchanged tree (race detector reports at tds/channel.go:184/579/584/585; about 1 run in 50 the "
-               "two CLOSE packets carry the SAME packet number) - reported to the coordinator, not yet a fix / known finding: mode 0 runs in the normal build only, its packet-number observation "
-               "is recorded in the case input (7th field, tag ';duplicate-teardown-numbers') and not judged; under the race detector and for the packet numbers only mode 1 is judged (every closer "
-               "reaches the held teardown write before the next one starts: ordered by happens-before through the transport, numbers 1, 2, ...). The outcome the property asks for - exactly one "
-               "Close performs the teardown, every other reports ErrChannelClosed, no panic, unregistered once - is judged in both modes. Concurrent Close of channel 0 (two logouts) is not provoked",
+               "concurrent closers of one channel (model C13/Closers.v): each closer's RLock / closed check / RUnlock is one step, the compare-and-swap of `closing` is one atomic step, "
+               "no goroutine holds the channel's read lock for long (that is C13's subject); Conn.Close takes part through its call of Channel.Close (that it may return ErrChannelClosed for a channel "
+               "whose teardown another goroutine is still performing is the intended behaviour of fix 650fc05); concurrent Close of channel 0 (two logouts) is not provoked. Before 650fc05 every closer "
+               "wrote the teardown with no lock held (race detector reports on CurrentHeaderType / curPacketNr, now and then two CLOSE packets with the same number): found by this family, fixed",
                "the packet size is connection state; in the concurrent histories the server only re-announces the size in force (the value senders load concurrently never "
                "changes, so the recorded writes are schedule-independent); that a new size is used by later messages of every channel is checked sequentially (fn 2)",
                "packets for unknown ids are only sent once every NewChannel has been acknowledged: NewChannel waits in NextPackage and would take a connection error "
@@ -74,8 +72,9 @@ LEVEL_TEXT = ("Machine-checked: C12_routing - for EVERY interleaving of received
               "code hands one id to two creators); C12_tx_numbering - for ANY interleaving of the transport writes of channels with distinct ids, selecting by the id in the packet "
               "HEADER recovers each channel's own writes, whose k-th packet carries number k mod 256, first the header-only SETUP packet (via C01_history: C12_channel_numbering); "
               "C12_setup_ack - NewChannel writes exactly the SETUP packet, succeeds on a PROTACK header-only answer, fails on other answers, waits while nothing arrives; "
-              "C12_concurrent_close - in EVERY schedule of n+1 calls of Channel.Close on one channel nobody panics, the id is deleted at most once, somebody can always move, and once all have "
-              "returned exactly one performed the teardown and the n others report ErrChannelClosed (counter-model without the re-check under the exclusive lock: C12_concurrent_close_unchecked_refuted). "
+              "C12_concurrent_close - in EVERY schedule of n+1 calls of Channel.Close on one channel nobody panics, at most one teardown packet is written, the id is deleted at most once, somebody can "
+              "always move, and once all have returned exactly one performed the teardown (one teardown packet) and the n others report ErrChannelClosed (counter-models without the compare-and-swap / "
+              "without the re-check under the exclusive lock: C12_concurrent_close_unguarded_refuted). "
               "PARTIAL for 'without data races' and real schedules: observed with the race detector and GOMAXPROCS 1/4/16, not proved.")
 LEVEL_NOTE = ("Level: proof of the routing / allocation / numbering / handshake logic over all interleavings of the modelled steps + correspondence (sequential families predicted "
               "exactly by the model, concurrent histories judged per channel) + race-detector runs as supporting observation. Trusted: Coq kernel, the hand-written models, "
